@@ -5,6 +5,7 @@ CoalModels.v against phasegen.coalescent_models on the same (model, b, k) / bloc
 Oracle on the implementation: sampling consistency, non-negativity, block sums, Kingman limits,
 documented time scales (mpmath, independent of SciPy)."""
 import itertools
+import json
 import random
 from fractions import Fraction as Fr
 
@@ -74,7 +75,7 @@ def run(res, replay=None):
     bk = [(b, k) for b in range(2, 13) for k in range(2, b + 1)]
     s12 = [(s1, s2) for s1 in range(1, 13) for s2 in range(1, 13) if s2 != s1]
     nmax_k, nmax_mm = (7, 6) if tier == 'quick' else (8, 7)
-    Ns = [1.0, 0.5, 4.0, 2.0 ** -5, 1024.0, 3.0, 0.1, 12345.678]
+    Ns = [1.0, 0.5, 4.0, 2.0 ** -5, 1024.0, 3.0, 0.1, 12345.678, 0.0123, 0.00731, 1.37e-3]
     cases = []
     for m in models:
         nmax = nmax_k if m['kind'] == 'kingman' else nmax_mm
@@ -82,7 +83,17 @@ def run(res, replay=None):
         for n in range(2, nmax + 1):
             blocks += block_vectors(n)
         cases.append({'model': m, 'bk': bk, 's12': s12, 'blocks': blocks, 'timescale': Ns})
+        if m['kind'] == 'beta':
+            cases[-1]['reassign'] = {'alpha': 1.25 if m['alpha'] != 1.25 else 1.75}
+        elif m['kind'] == 'dirac':
+            cases[-1]['reassign'] = {'psi': 0.625 if m['psi'] != 0.625 else 0.375, 'c': 3.0 if m['c'] != 3.0 else 0.5}
     impl = C.run_impl('rates.py', {'cases': cases})['results']
+    for c_, im_ in zip(cases, impl):
+        if 'reassigned' in im_:
+            res.count(('reassign', json.dumps(c_['model'], sort_keys=True)))
+            if im_['reassigned'] != im_['reassigned_fresh']:
+                res.violation('a model object whose public parameters were reassigned after it had been queried answers differently from a model constructed with the new values',
+                              {'model': c_['model'], 'new_parameters': c_['reassign'], 'after_reassignment': im_['reassigned'], 'fresh_model': im_['reassigned_fresh']})
 
     # ---- model values (Coq, exact rationals) ----
     bodies = []
